@@ -344,6 +344,23 @@ def sort_obligations(chk, es, tier, rng):
         chk.obligation("evec_sort: %s raises RuntimeError" % label, "unsat" if raised else "sat", kind="raises", logic="concrete")
         if not raised:
             chk.violation("evec_sort:accepts-mismatch", "evec_sort accepts %s" % label, {})
+    # container twin: the two bases may arrive as lists, tuples (zip(*pairs), as the package's own test builds them) or arrays
+    b2 = [[0.6, 0.8], [-0.8, 0.6]]
+    t2 = [[-0.8, 0.6], [0.6, 0.8]]
+    bad_c = None
+    for tn, tc in (("list", list), ("tuple", tuple), ("array", numpy.array)):
+        for bn, bc in (("list", list), ("tuple", tuple), ("array", numpy.array)):
+            try:
+                got = es.evec_sort(["x", "y"], tc([tc(r) if tc is not numpy.array else r for r in t2]) if tc is not numpy.array else numpy.array(t2),
+                                   bc([bc(r) if bc is not numpy.array else r for r in b2]) if bc is not numpy.array else numpy.array(b2))
+                if list(got) != ["y", "x"]:
+                    bad_c = bad_c or "target as %s, base as %s: returns %s" % (tn, bn, got)
+            except Exception as e:
+                bad_c = bad_c or "target as %s, base as %s: raises %s: %s" % (tn, bn, type(e).__name__, e)
+    if bad_c:
+        chk.violation("evec_sort:container-types", "evec_sort on correctly sized bases given as different container types: %s" % bad_c, {})
+    else:
+        chk.side_check("container twin: evec_sort accepts lists / tuples / arrays in any combination (9 runs)", True)
     chk.sample(dict(n=2, base=[[0.6, 0.8], [-0.8, 0.6]], target="signed permutation of the base + symbolic perturbation in [-0.05, 0.05]^(n x n)"))
 
 
